@@ -71,10 +71,69 @@ def threshold_lists(ctx, k):
     return out
 
 
+THR = 10 ** -8     # the literal of ucr.py line 49 (`abs(angles[0]) > 10**-8`)
+
+
+def single_leaf(k, pos, x):
+    """angle list whose multiplexed leaf number `pos` is exactly x and all other leaves exactly 0.0: all entries are
+    +-x (a Walsh sign pattern), so every (a+b)/2, (a-b)/2 of the recursion is exact in floating point"""
+    leaves = [0.0] * (2 ** k)
+    leaves[pos] = x
+    return from_leaves(leaves)
+
+
+def boundary_lists(ctx, k):
+    """boundary-value cases of ucr.py (see BOUNDARIES): the leaf test at the literal itself and one ulp on both sides
+    (tie only can tell: the operator changes by 5e-9), every leaf a factor 3-8 above / 5 below the literal (the
+    operator error of a moved threshold adds up over the 2^k leaves: k = 5, leaves 8e-8 -> |a_0| = 2.6e-6), exact
+    zeros of both signs, multiples of pi.  Excluded band: lists whose leaves are in (1e-8/2^k .. 1e-8] with 2^k * leaf
+    > 2e-7 would make the real code differ from the ideal operator by > 1e-7 by design (dropped rotations); the
+    below-threshold lists here keep 2^k * leaf <= 6.4e-8."""
+    n = 2 ** k
+    r = ctx.rng
+    up, dn = float(np.nextafter(THR, 1.0)), float(np.nextafter(THR, 0.0))
+    out = []
+    if k <= 3:
+        for x in (THR, -THR, up, -up, dn, -dn):
+            pos = [0, n - 1] if k >= 1 else [0]
+            if 1 <= k <= 2:
+                pos = list(range(n))
+            for q in pos:
+                out.append(single_leaf(k, q, x))
+                ctx.count("boundary:leaf |angle| == 1e-8 exactly (dropped)" if abs(x) == THR else
+                          "boundary:leaf |angle| == 1e-8 + 1ulp (kept)" if abs(x) == up else
+                          "boundary:leaf |angle| == 1e-8 - 1ulp (dropped)")
+        out.append([-0.0] * n)
+        ctx.count("boundary:all angles -0.0")
+        out.append(single_leaf(k, r.randrange(n), 1.1))
+        ctx.count("boundary:exactly one non-zero leaf")
+    for x in (3e-8, 8e-8, -8e-8):
+        out.append(from_leaves([x] * n))          # = [n*x, 0, ..., 0]
+        ctx.count("boundary:every leaf a factor 3-8 above 1e-8 (all kept)")
+    out.append(from_leaves([2e-9] * n))
+    ctx.count("boundary:every leaf a factor 5 below 1e-8 (all dropped)")
+    out.append([r.choice([0.0, math.pi, -math.pi, 2 * math.pi, -2 * math.pi, 4 * math.pi]) for _ in range(n)])
+    ctx.count("boundary:angles multiples of pi")
+    return out
+
+
+BOUNDARIES = {
+    "ucr.py:39-40 size = len(angles), n_qubits = int(log2(size)) + 1": "k = 0..5 (sizes 1, 2, 4, 8, 16, 32) every run",
+    "ucr.py:48 n_qubits == 1": "k = 0 and k = 1, 2, 3 with last_control True and False, every axis / entangler",
+    "ucr.py:49 abs(angles[0]) > 10**-8": "leaf exactly 0.0 / -0.0, 2e-9, 1e-8 - 1ulp, 1e-8, 1e-8 + 1ulp, 3e-8, 5e-8, 8e-8, both "
+                                         "signs, at the first / last / every leaf position (k <= 3), all leaves at once (k <= 5)",
+    "ucr.py:53-55 identity(2 ** (n_qubits - 2))": "k = 1 (1x1 identity), 2, 3",
+    "ucr.py:62/67 slices [: size // 2], [size // 2 :]": "k = 1 (halves of length 1), 2, 3; halves distinguished by the sign family",
+    "ucr.py:63/68 reg[0:-1]": "k = 1 (one wire), 2, 3",
+    "ucr.py:75 if last_control": "True / False at every k incl. k = 0 (flag without effect)",
+}
+
+
 def angle_lists(ctx, k):
     n = 2 ** k
     r = ctx.rng
     fams = []
+    fams += boundary_lists(ctx, k)
     fams.append([r.uniform(-2 * math.pi, 2 * math.pi) for _ in range(n)])
     fams.append([r.uniform(-20, 20) for _ in range(n)])                      # > 2 pi
     fams.append([r.choice([0.0, r.uniform(-3, 3)]) for _ in range(n)])        # zeros
